@@ -44,13 +44,21 @@ What is claimed where.  (a) `augment_monotone`, (b) `graft_paths` + `graft_stamp
 (f) `augment_reported` (+ `augment_reported_phase` on the parametrised model).
 Not proved (kept visible here): that the second order also ends without `duplicate-node` error
 is stated as "no application of the second order collides" (`EvFree`), not on its error list —
-an upper bound on the swept errors would need the invariant "child names are distinct at every
-level" (`NoDupNames`), whose preservation by `merge` is not proved; for the same reason
-`view_eq_paths` takes `NoDupNames` as a hypothesis.  Equality of forests is equality of the flat
+that needs an upper bound on the errors one application can add (still open).  The invariant
+"child names are distinct at every level" (`NoDupNames`), which `view_eq_paths` takes as a
+hypothesis, is proved in Props/C07Bridge.lean: `merge` keeps it unconditionally
+(`noDupNames_merge`), every tree has it when the augment phase starts, and every tree in which no
+error is recorded has it after the loop (`phaseStart_noDupNames`, `loop_noDupNames`,
+`view_eq_paths_phaseStart` / `_loop` / `_processAll`).  Equality of forests is equality of the flat
 view: same locations with the same data; child order and whether an unwritten rpc input / output
 entry has been created are abstracted (the dump sorts children; the correspondence run compares
 the created entries).  `PhaseInput` (hypotheses of (f) about what `ToEntry` and the registry hand
-to the loop) is not derived from the `ToEntry` model.
+to the loop) is not derived here; Props/C07Bridge.lean derives it from the `ToEntry` model for the
+state `processAll` enters the phase with (`phaseInput_holds`) and restates (d), (e), (f) for
+`processAll` itself (`augment_loop_confluent_processAll`, `augment_exactly_once_processAll`,
+`augment_reported_processAll`).  What remains there are two decidable predicates on the loaded
+statements: `AugPosDistinct` (augment statements of one module stand at different positions) and
+`AugArgsPlain` (augment arguments are absolute schema node identifiers).
 Outside the claim, as in the property text: the implicit case of a shorthand choice member as
 target (such an augment is applied by the leftover pass after FixChoice; (f) counts it as
 applied there) and uses-augment.
